@@ -46,8 +46,8 @@ SUSPECTED_DEFECTS = [
     "again: Environment(autoescape=True).from_string('{% autoescape flag %}{% set s %}{{ a }}{% endset %}{{ s ~ \"-\" ~ s }}{% endautoescape %}')"
     ".render(flag=True, a='<b>') == '&amp;lt;b&amp;gt;-&amp;lt;b&amp;gt;' (with {% autoescape true %}: '&lt;b&gt;-&lt;b&gt;'); same for m(a) ~ m(b), "
     "self.b() ~ x, caller() ~ x; excluded: templates containing '~' under the runtime-decided wrappers (predicate _const_output)",
-    "D3 (see C15/C24) indent with a plain-string width on a rendered fragment: Environment(autoescape=True).from_string("
-    "'{% macro m(x) %}{{ x }}\\nz{% endmacro %}{{ m(a)|indent(b) }}').render(a='x', b='&lt;') == 'x\\n&lt;z' (unescapes to '<z', autoescape off gives '&lt;z'); bodies tagged D3",
+    "D3 (repaired in /repo by 'fix: indent filter escapes a plain string width for safe input'; the body is checked again) indent with a plain-string width "
+    "on a rendered fragment marked the width safe",
     "D4 (see C15) macro imported from a non-autoescaped template and called from an autoescaped one returns its unescaped body marked safe; bodies tagged D4",
     "D5 (see C15) a {% block %} nested inside an {% autoescape %} region is compiled with the template-level flag: Environment(autoescape=False).from_string("
     "'{% autoescape true %}{% block b %}{{ a }}{% endblock %}{% endautoescape %}').render(a='&lt;') == '&lt;'; bodies tagged D5",
@@ -110,6 +110,8 @@ BODIES = [B(s) for s in [
     "{% set ns = namespace(v='') %}{% for v in [a, b] %}{% set ns.v %}{{ ns.v }}<li>{{ v }}</li>{% endset %}{% endfor %}{{ ns.v }}",
     "{% set s = a ~ b %}{{ s }}|{% set t = [a, b]|join('-') %}{{ t }}|{% set u, v = a, b %}{{ u }}{{ v }}",
     "{% set s | lower %}{{ a }}X{% endset %}{{ s }}|{% set s | trim %} {{ b }} {% endset %}{{ s }}|{% set s | replace('zz', 'y') %}{{ a }}zz{% endset %}{{ s ~ a }}",
+    # (names in set-block filter arguments raised an AssertionError before 'fix: names used in a set block's filter arguments are tracked'; both sides raising is accepted)
+    "{% set s | replace('zz', b) %}{{ a }}zz{% endset %}{{ s }}|{% set s | default(b) | trim %}{{ a }}{% endset %}{{ s }}",
     "{% with s = a, t = b %}{% set r %}{{ s }}{{ t }}{% endset %}{{ r }}{{ s ~ r }}{% endwith %}",
     # ---- filter blocks (neutral filters on rendered fragments)
     "{% filter trim %} {{ a }} {% endfilter %}|{% filter lower %}{{ a }}{{ b }}Q{% endfilter %}",
@@ -142,7 +144,7 @@ BODIES = [B(s) for s in [
     # ---- regions of the *other* mode are identical in both variants
     "{{ a }}{% autoescape false %}{% endautoescape %}{{ b }}{% autoescape true %}{% endautoescape %}{{ a ~ b }}",
 ]] + [
-    B(_M + "{{ m(a ~ '\nz')|indent(2) }}|{{ m(a ~ '\nz')|indent(b) }}", "D3"),
+    B(_M + "{{ m(a ~ '\nz')|indent(2) }}|{{ m(a ~ '\nz')|indent(b) }}"),
     B("«{% block b %}{{ a }}{% endblock %}{{ self.b() }}»", "D5"),
     B("{% import 'lib.txt' as lib %}{{ lib.m(a) }}", "D4"),
     # a set block captured at the top level of an imported helper (outside any region): only comparable where the whole helper has one mode
@@ -228,18 +230,18 @@ _SEL = dict(enabled_extensions=("html",), disabled_extensions=("txt",), default_
 _AT, _AN, _AF, _EA = "{% autoescape true %}", "{% autoescape false %}", "{% autoescape flag %}", "{% endautoescape %}"
 # name: (escaping mode, non-escaping mode, volatile?, defects showing, doc)
 WRAPPERS = {
-    "static": (Mode(True), Mode(False), False, {"D3"}, "Environment(autoescape=True) vs Environment(autoescape=False)"),
-    "async": (Mode(True, is_async=True, newstyle=False), Mode(False, is_async=True, newstyle=False), False, {"D3"},
+    "static": (Mode(True), Mode(False), False, set(), "Environment(autoescape=True) vs Environment(autoescape=False)"),
+    "async": (Mode(True, is_async=True, newstyle=False), Mode(False, is_async=True, newstyle=False), False, set(),
               "enable_async environments, render_async driven without event loop"),
-    "select": (Mode(select_autoescape(**_SEL), suffix=".html"), Mode(select_autoescape(**_SEL), suffix=".txt"), False, {"D3", "D4"},
+    "select": (Mode(select_autoescape(**_SEL), suffix=".html"), Mode(select_autoescape(**_SEL), suffix=".txt"), False, {"D4"},
                "one select_autoescape environment; templates and helpers named *.html vs *.txt"),
-    "block": (Mode(False, _AT, _EA, newstyle=False), Mode(True, _AN, _EA, newstyle=False), False, {"D3", "D5", "R"},
+    "block": (Mode(False, _AT, _EA, newstyle=False), Mode(True, _AN, _EA, newstyle=False), False, {"D5", "R"},
               "{% autoescape true %} in a non-escaping environment vs {% autoescape false %} in an escaping one"),
-    "flag_off_env": (Mode(False, _AF, _EA, ctx={"flag": True}), Mode(False, _AF, _EA, ctx={"flag": False}), True, {"D3", "D5", "R"},
+    "flag_off_env": (Mode(False, _AF, _EA, ctx={"flag": True}), Mode(False, _AF, _EA, ctx={"flag": False}), True, {"D5", "R"},
                      "{% autoescape flag %} with flag True vs False, Environment(autoescape=False)"),
-    "flag_on_env": (Mode(True, _AF, _EA, ctx={"flag": True}, newstyle=False), Mode(True, _AF, _EA, ctx={"flag": False}, newstyle=False), True, {"D3", "D5", "R"},
+    "flag_on_env": (Mode(True, _AF, _EA, ctx={"flag": True}, newstyle=False), Mode(True, _AF, _EA, ctx={"flag": False}, newstyle=False), True, {"D5", "R"},
                     "{% autoescape flag %} with flag True vs False, Environment(autoescape=True)"),
-    "async_flag": (Mode(False, _AF, _EA, ctx={"flag": True}, is_async=True), Mode(False, _AF, _EA, ctx={"flag": False}, is_async=True), True, {"D3", "D5", "R"},
+    "async_flag": (Mode(False, _AF, _EA, ctx={"flag": True}, is_async=True), Mode(False, _AF, _EA, ctx={"flag": False}, is_async=True), True, {"D5", "R"},
                    "{% autoescape flag %} with flag True vs False, async environment"),
 }
 
